@@ -15,3 +15,22 @@ Definition c19_ok (table:list map_range) (c:c19_case) : bool :=
     | None => false
     end
   end.
+
+(* Sort sites: (function, ordinal, the elements in declaration order with the projections the comparator compares,
+   the labels in the order the real output shows them).  The site must be in Gen.MapRanges.sort_sites, its comparator
+   must have exactly as many links as the harness printed projections, and the observed order must be the model's sort
+   under the lexicographic chain of those projections (for a comparator that is total on the printed rows every
+   sort_result is this one: SortSitesProps.lex_total_unique). *)
+Require Import Verif.Determ.SortSites.
+Definition c19_sort_case := (string * nat * list row * list string)%type.
+
+Definition c19_sort_ok (table:list sort_site) (c:c19_sort_case) : bool :=
+  match c with (fn, n, rows, obs) =>
+    match site_of table fn n with
+    | Some s =>
+        let k := List.length (ss_keys s) in
+        negb (Nat.eqb k 0) && forallb (fun r => Nat.eqb (List.length (snd r)) k) rows &&
+        list_eqb String.eqb obs (map fst (go_sort_stable (less (columns k)) rows))
+    | None => false
+    end
+  end.
